@@ -40,7 +40,13 @@ pub trait AsCteXml {
 
     /// Helper function -> XML escape symbols
     fn escape_xml(unescaped: &str) -> String {
+        // Los caracteres no permitidos en XML 1.0 (p.e. caracteres de control) no se pueden representar y se omiten
         unescaped
+            .chars()
+            .filter(|&c| {
+                matches!(c, '\t' | '\n' | '\r' | '\u{20}'..='\u{D7FF}' | '\u{E000}'..='\u{FFFD}' | '\u{10000}'..='\u{10FFFF}')
+            })
+            .collect::<String>()
             .replace('&', "&amp;")
             .replace('<', "&lt;")
             .replace('>', "&gt;")
